@@ -224,6 +224,10 @@ def run_shard(spec):
                 continue
         else:
             want = "same_line" if k % 4 == 3 else None
+            if k % 4 == 2:
+                # the classes where whole cells can get lost: concurrent insertions of several cells, cells next to
+                # deleted ones
+                want = r.choice(["both_insert_lists", "both_insert_lists", "same_id_insert", "both_insert_dissimilar", "insert_near", None])
             cls, b, l, rm, info, waste = valid_triple(gen, cls=want, minor=(5 if want and k % 8 != 7 else None), plain_eol=True)
             if cls is None:
                 continue
